@@ -74,7 +74,7 @@ def histories(draw):
             st.fixed_dictionaries(
                 {
                     "op": st.sampled_from(["search", "search", "search", "call", "update_from_tree", "new_object"]),
-                    "variant": st.sampled_from(["same", "same", "perm_in", "perm_out", "resize", "move", "out_change", "swap_labels", "rename"]),
+                    "variant": st.sampled_from(["same", "same", "perm_in", "perm_out", "resize", "move", "out_change", "swap_labels", "rename", "add_scalar"]),
                     "vk": st.integers(0, 20),
                     "objmode": st.sampled_from(["shared", "fresh"]),
                     "obj": st.integers(0, 2),
@@ -166,6 +166,9 @@ def make_query(net, variant, k, objmode):
             output.remove(ix)
         else:
             output.append(ix)
+    elif variant == "add_scalar":
+        # one more (scalar) tensor: a contraction over N + 1 tensors
+        inputs = inputs + [[]] * (1 + k % 2)
     elif variant == "swap_labels" and len(sizes) >= 2:
         # two labels of different size trade places everywhere (the size_dict
         # stays as it is): same incidence structure, same {label: size}, but the
@@ -216,7 +219,7 @@ def fingerprint_a(inputs, output, sizes):
 def fingerprint_b(inputs, output, sizes):
     """Relabelling-invariant identity of a contraction: the multiset of bonds,
     each = (which tensors carry it, with multiplicity, -1 for the output; its
-    size).  Two queries with different values differ as contractions (for
+    size), together with the number of tensors (scalars carry no bond).  Two queries with different values differ as contractions (for
     cost and path purposes), whatever their labels are called."""
     edges = {}
     for ix in output:
@@ -224,7 +227,7 @@ def fingerprint_b(inputs, output, sizes):
     for i, t in enumerate(inputs):
         for ix in t:
             edges.setdefault(ix, []).append(i)
-    return tuple(sorted((tuple(sorted(nodes)), sizes[ix]) for ix, nodes in edges.items()))
+    return len(inputs), tuple(sorted((tuple(sorted(nodes)), sizes[ix]) for ix, nodes in edges.items()))
 
 
 def run_case(spec, sub=None):
